@@ -144,7 +144,8 @@ pub fn c01_oracle(t: &TextTree, text: &str) -> Outcome {
             let r = catch(|| {
                 let mut tok = sudachi::analysis::stateful_tokenizer::StatefulTokenizer::new(dict.clone(), Mode::C);
                 let mut l = MorphemeList::empty(dict.clone());
-                for warm in ["東京都に行く1,000円", "京"] {
+                // (both are rewritten to text of the same byte length with the bytes laid out differently)
+                for warm in ["É…東京都に行く1,000円", "…É京"] {
                     tok.reset().push_str(warm);
                     if tok.do_tokenize().is_ok() {
                         let _ = l.collect_results(&mut tok);
@@ -231,6 +232,18 @@ pub fn worlds_for_c01() -> Vec<(Arc<World>, Vec<Sym>, &'static str)> {
     v.push((mk(spec_user("W-user2", 2, true)), alphabet_user(), "user"));
     v.push((mk(spec_reordered("W-full-reordered")), alphabet_reordered(), "reordered"));
     v.push((mk(spec_full("W-full-interaction", true)), alphabet_interaction(), "interaction"));
+    // numerals whose headword is longer / shorter than their key: a joined numeral takes its range from the text
+    let mut s = spec_full("W-full-numeral-headwords", true);
+    for r in s.system.iter_mut() {
+        match r.surface.as_str() {
+            "1" => r.headword = "１".into(),
+            "一" => r.headword = "1".into(),
+            "十" => r.headword = "１０".into(),
+            "," => r.headword = "，".into(),
+            _ => {}
+        }
+    }
+    v.push((mk(s), syms(&["1", "一", "a"], &["十", ",", "東", "㍿", "ア", "Ａ", "."]), "numeral-headwords"));
     v
 }
 
